@@ -51,6 +51,78 @@ def candidates_for(model, rel: Relation, rng: random.Random, n: int = 8) -> list
     return pool
 
 
+_NESTED_CACHE: dict = {}
+
+
+def nested_slots(rel: Relation) -> list[tuple[str, str]]:
+    """(attribute, type hint) pairs of single-valued containment attributes of the relation's element class"""
+    from capellambse.model import _descriptors as D
+
+    cls = getattr(rel.acc, "class_", None)
+    if cls in _NESTED_CACHE:
+        return _NESTED_CACHE[cls]
+    out: list = []
+    _NESTED_CACHE[cls] = out
+    if cls is None:
+        return out
+    for attr in dir(cls):
+        if attr.startswith("_"):
+            continue
+        try:
+            acc = getattr(cls, attr)
+        except Exception:
+            continue
+        if isinstance(acc, D.RoleTagAccessor) and acc.aslist is None:
+            if acc.classes:
+                out.append((attr, acc.classes[0].__name__))
+            elif attr in ("min_card", "max_card", "default_value", "min_value", "max_value", "null_value", "min_length", "max_length"):
+                out.append((attr, "LiteralNumericValue"))
+    return out
+
+
+def discover_for(model, obj) -> list[Relation]:
+    return [Relation(o, a, ol.accessor_kind(acc), acc) for o, a, acc, _ in ol.coupled_relations(model, [obj])]
+
+
+def referenced_target(model, rng: random.Random):
+    """an object that some link element or link attribute points at (raw scan of '#<id>' tokens)"""
+    import re
+
+    from capellambse.model import _obj as O
+
+    targets: dict[str, int] = {}
+    for tree in model._loader.trees.values():
+        if tree.fragment_type.name != "SEMANTIC":
+            continue
+        for e in tree.root.iter():
+            if not isinstance(e.tag, str):
+                continue
+            for k, v in e.attrib.items():
+                if k == "id" or "#" not in v:
+                    continue
+                for m in re.finditer(r"#([0-9a-f-]{36})", v):
+                    targets[m.group(1)] = targets.get(m.group(1), 0) + 1
+    if not targets:
+        return None
+    ids = sorted(targets)
+    for _ in range(10):
+        k = rng.choice(ids)
+        try:
+            e = model._loader[k]
+        except Exception:
+            continue
+        if e.getparent() is None or e.get("id") is None:
+            continue
+        try:
+            obj = O.ModelElement.from_model(model, e)
+            if obj.parent is None:
+                continue
+            return obj
+        except Exception:
+            continue
+    return None
+
+
 class Step(t.NamedTuple):
     op: str
     rel: Relation | None
@@ -60,7 +132,8 @@ class Step(t.NamedTuple):
 
 def gen_step(model, rels: list[Relation], rng: random.Random, weights: dict[str, int] | None = None) -> Step:
     """Pick one operation. `run` performs it on the implementation (may raise)."""
-    w = {"create": 4, "delitem": 3, "insert": 3, "setitem": 1, "append": 2, "remove": 2, "setattr": 2, "clear": 1}
+    w = {"create": 4, "delitem": 3, "insert": 3, "setitem": 1, "append": 2, "remove": 2, "setattr": 2, "clear": 1,
+         "create_clash": 1, "create_nested": 2, "delete_referenced": 2}
     if weights:
         w.update(weights)
     for _ in range(50):
@@ -83,6 +156,45 @@ def gen_step(model, rels: list[Relation], rng: random.Random, weights: dict[str,
                 kw["no_such_attribute_xyz"] = 1
             return Step("create", rel, {"kw": {k: v for k, v in kw.items()}, "bad": bad},
                         lambda lst=lst, kw=kw: lst.create(**kw))
+        if op == "create_clash" and rel.kind in CONTAIN:
+            objs = ol.all_objects(model)
+            clash = rng.choice(objs).uuid
+            return Step("create_clash", rel, {"kw": {"name": "clash", "uuid": clash}, "bad": True},
+                        lambda lst=lst, clash=clash: lst.create(name="clash", uuid=clash))
+        if op == "create_nested":
+            cands = [r for r in rels if r.kind in CONTAIN and nested_slots(r)]
+            if not cands:
+                continue
+            rel = rng.choice(cands)
+            try:
+                lst = rel.get()
+            except Exception:
+                continue
+            nested = nested_slots(rel)
+            attr, hint = rng.choice(nested)
+            from capellambse.model import NewObject
+            inner = "%08x-%04x-%04x-%04x-%012x" % (rng.getrandbits(32), rng.getrandbits(16), rng.getrandbits(16), rng.getrandbits(16), rng.getrandbits(48))
+            fail = rng.random() < 0.6
+            kw = {"name": "outer", attr: NewObject(hint, uuid=inner)}
+            if fail:
+                kw["no_such_attribute_xyz"] = 1
+            return Step("create_nested", rel, {"kw": {"name": "outer", attr: f"NewObject({hint})"}, "uuid": inner, "bad": fail},
+                        lambda lst=lst, kw=kw: lst.create(**kw))
+        if op == "delete_referenced":
+            tgt = referenced_target(model, rng)
+            if tgt is None:
+                continue
+            parent = tgt.parent
+            for r in discover_for(model, parent):
+                if r.kind not in CONTAIN:
+                    continue
+                try:
+                    l2 = r.get()
+                except Exception:
+                    continue
+                if tgt in l2:
+                    return Step("delete_referenced", r, {"uuid": tgt.uuid}, lambda l2=l2, tgt=tgt: l2.remove(tgt))
+            continue
         if op == "delitem" and n > 0:
             i = rng.randrange(-n, n)
             return Step("delitem", rel, {"i": i, "uuid": lst[i].uuid if hasattr(lst[i], "uuid") else None},
